@@ -24,3 +24,162 @@ package pbft
 //@   ensures  [first-block-has-no-commit] result == nil && block.Header.Height == 1 ==> len(block.LastCommit.Precommits) == 0
 //@   ensures  [last-commit-size] result == nil && block.Header.Height != 1 ==> len(block.LastCommit.Precommits) == len(s.LastValidators.Validators)
 //@   ensures  [validators-hash-commits] result == nil ==> bytesEq(block.Header.ValidatorsHash, valSetHashOf(s.Validators))
+
+// ---------------------------------------------------------------------------------------------
+// height vote set (C15, C08, C04)
+
+//@ pred wfRVS(h *HeightVoteSet, r Int) = wfVoteSet(h.roundVoteSets[r].Prevotes) && majInv(h.roundVoteSets[r].Prevotes) \
+//@      && wfVoteSet(h.roundVoteSets[r].Precommits) && majInv(h.roundVoteSets[r].Precommits) \
+//@      && h.roundVoteSets[r].Prevotes.type_ == 1 && h.roundVoteSets[r].Precommits.type_ == 2 \
+//@      && h.roundVoteSets[r].Prevotes.round == r && h.roundVoteSets[r].Precommits.round == r \
+//@      && h.roundVoteSets[r].Prevotes != h.roundVoteSets[r].Precommits
+//@ pred wfHVS(h *HeightVoteSet) = h != nil && h.roundVoteSets != nil && h.peerCatchupRounds != nil && wfValSet(h.valSet) && h.height != 0 && h.round >= 0 \
+//@      && forall(r, Int, has(h.roundVoteSets, r) ==> wfRVS(h, r)) \
+//@      && forall(r, 0, h.round + 1, has(h.roundVoteSets, r))
+
+//@ func (*HeightVoteSet).getVoteSet
+//@   props C15 C08 C04
+//@   requires hvs != nil
+//@   pure
+//@   aborts when has(hvs.roundVoteSets, round) && type_ != 1 && type_ != 2
+//@   ensures  !has(hvs.roundVoteSets, round) ==> result == nil
+//@   ensures  has(hvs.roundVoteSets, round) && type_ == 1 ==> result == hvs.roundVoteSets[round].Prevotes
+//@   ensures  has(hvs.roundVoteSets, round) && type_ == 2 ==> result == hvs.roundVoteSets[round].Precommits
+
+//@ func (*HeightVoteSet).Prevotes
+//@   props C15 C08 C04
+//@   requires hvs != nil
+//@   noalloc
+//@   assigns  hvs.mtx.*
+//@   ensures  result == ite(has(hvs.roundVoteSets, round), hvs.roundVoteSets[round].Prevotes, nil)
+
+//@ func (*HeightVoteSet).Precommits
+//@   props C15 C08 C04
+//@   requires hvs != nil
+//@   noalloc
+//@   assigns  hvs.mtx.*
+//@   ensures  result == ite(has(hvs.roundVoteSets, round), hvs.roundVoteSets[round].Precommits, nil)
+
+//@ func (*HeightVoteSet).POLInfo
+//@   props C15 C08 C04
+//@   requires wfHVS(hvs)
+//@   noalloc
+//@   assigns  hvs.mtx.*, alloftype(sync.Mutex)
+//@   ensures  [pol-is-a-polka] polRound >= 0 ==> polRound <= hvs.round && hvs.roundVoteSets[polRound].Prevotes.maj23 != nil && polBlockID == *hvs.roundVoteSets[polRound].Prevotes.maj23
+//@   ensures  [pol-is-latest] forall(r, polRound + 1, hvs.round + 1, r >= 0 ==> hvs.roundVoteSets[r].Prevotes.maj23 == nil)
+//@   ensures  polRound >= -1
+//@   loop 0 invariant -1 <= r && r <= hvs.round
+//@   loop 0 invariant forall(q, r + 1, hvs.round + 1, hvs.roundVoteSets[q].Prevotes.maj23 == nil)
+
+//@ func (*HeightVoteSet).addRound
+//@   props C15 C08 C04
+//@   requires wfHVS(hvs) && !has(hvs.roundVoteSets, round)
+//@   assigns  hvs.roundVoteSets[*]
+//@   ensures  has(hvs.roundVoteSets, round) && wfRVS(hvs, round)
+//@   ensures  fresh(hvs.roundVoteSets[round].Prevotes) && fresh(hvs.roundVoteSets[round].Precommits)
+//@   ensures  hvs.roundVoteSets[round].Prevotes.maj23 == nil && hvs.roundVoteSets[round].Precommits.maj23 == nil
+//@   ensures  forall(r, Int, r != round ==> has(hvs.roundVoteSets, r) == old(has(hvs.roundVoteSets, r)) && hvs.roundVoteSets[r] == old(hvs.roundVoteSets[r]))
+//@   ensures  [wf-others] forall(r, Int, has(hvs.roundVoteSets, r) && r != round ==> wfRVS(hvs, r))
+//@   ensures  [wf-all] forall(r, Int, has(hvs.roundVoteSets, r) ==> wfRVS(hvs, r))
+//@   ensures  wfHVS(hvs)
+
+//@ func (*HeightVoteSet).SetRound
+//@   props C08 C04
+//@   requires wfHVS(hvs)
+//@   aborts when hvs.round != 0 && round < hvs.round + 1
+//@   assigns  hvs.roundVoteSets[*], hvs.round, hvs.mtx.*
+//@   ensures  hvs.round == round || (old(hvs.round) == 0 && round < 0)
+//@   ensures  forall(r, Int, old(has(hvs.roundVoteSets, r)) ==> has(hvs.roundVoteSets, r) && hvs.roundVoteSets[r] == old(hvs.roundVoteSets[r]))
+//@   ensures  round >= 0 ==> wfHVS(hvs)
+//@   loop 0 invariant old(hvs.round) + 1 <= r && (r <= round + 1 || round < old(hvs.round))
+//@   loop 0 invariant wfHVS(hvs) && hvs.round == old(hvs.round)
+//@   loop 0 invariant forall(q, 0, r, q <= round ==> has(hvs.roundVoteSets, q))
+//@   loop 0 invariant forall(q, Int, old(has(hvs.roundVoteSets, q)) ==> has(hvs.roundVoteSets, q) && hvs.roundVoteSets[q] == old(hvs.roundVoteSets[q]))
+
+//@ func (*HeightVoteSet).AddVote
+//@   props C15 C08 C04
+//@   requires wfHVS(hvs) && vote != nil
+//@   ensures  [accepted-only-if-valid] added ==> (vote.Type == 1 || vote.Type == 2) && has(hvs.roundVoteSets, vote.Round)
+//@   ensures  [catchup-bounded] !old(has(hvs.roundVoteSets, vote.Round)) && has(hvs.roundVoteSets, vote.Round) ==> old(len(hvs.peerCatchupRounds[peerKey])) < 2 && len(hvs.peerCatchupRounds[peerKey]) == old(len(hvs.peerCatchupRounds[peerKey])) + 1
+//@   ensures  [modified-set-stays-wf] added ==> wfVoteSet(ite(vote.Type == 1, hvs.roundVoteSets[vote.Round].Prevotes, hvs.roundVoteSets[vote.Round].Precommits))
+// assumed, not proved: vote sets of different rounds/types share no storage (each comes from its own NewVoteSet call),
+// hence updating one leaves the others well-formed
+//@   trusted-ensures wfHVS(hvs)
+
+// ---------------------------------------------------------------------------------------------
+// consensus state: vote emission and locking (C04, C03)
+
+//@ ghost gSignErr Iface
+//@ ghost gValidated Ref
+//@ ghost gPolkaOk Bool
+//@ ghost gPolkaID types.BlockID
+
+//@ func (*ConsensusState).sendInternalMessage
+//@   trusted
+//@   pure
+//@ func (*ConsensusState).updateRoundStep
+//@   props C04
+//@   requires cs != nil
+//@   assigns  cs.RoundState.Round, cs.RoundState.Step
+//@   ensures  cs.RoundState.Round == round && cs.RoundState.Step == step
+//@ func (*ConsensusState).newStep
+//@   trusted
+//@   assigns  cs.nSteps
+//@ func (*RoundState).RoundStateEvent
+//@   trusted
+//@   pure
+
+//@ func (*ConsensusState).signVote
+//@   props C03 C04
+//@   requires cs != nil && cs.privValidator != nil && cs.state != nil && wfValSet(cs.RoundState.Validators)
+//@   assigns  alloftype(types.PrivValidator), fs, durH, durR, durS, durBytes, durSig
+//@   ensures  [vote-is-for-current-step] result0 != nil && fresh(result0) && result0.Height == cs.RoundState.Height && result0.Round == cs.RoundState.Round && result0.Type == type_
+//@   ensures  [vote-is-for-requested-block] result0.BlockID.Hash == hash && result0.BlockID.PartsHeader == header
+
+//@ func (*ConsensusState).signAddVote
+//@   props C03 C04
+//@   requires cs != nil && cs.state != nil && (cs.privValidator != nil ==> wfValSet(cs.RoundState.Validators))
+//@   assigns  alloftype(types.PrivValidator), fs, durH, durR, durS, durBytes, durSig
+//@   atcall signVote set gSignErr = result1
+//@   atcall sendInternalMessage assert [queued-only-if-signer-agreed] gSignErr == nil
+//@   ensures  [at-most-one-vote-queued] calls(sendInternalMessage) <= 1
+//@   ensures  [refused-means-nothing-queued] result == nil ==> calls(sendInternalMessage) == 0
+//@   ensures  result != nil ==> result.Type == type_ && result.BlockID.Hash == hash && result.BlockID.PartsHeader == header && result.Height == cs.RoundState.Height && result.Round == cs.RoundState.Round
+
+//@ func (*ConsensusState).defaultDoPrevote
+//@   props C04 C01
+//@   requires cs != nil && cs.state != nil && (cs.privValidator != nil ==> wfValSet(cs.RoundState.Validators))
+//@   assigns  alloftype(types.PrivValidator), fs, durH, durR, durS, durBytes, durSig, alloftype(types.Header), alloftype(types.Commit), alloftype(types.Data)
+//@   atcall signAddVote assert [prevote-type] arg_type_ == 1
+//@   atcall signAddVote assert [locked-prevotes-locked-block] cs.RoundState.LockedBlock != nil ==> arg_hash == blockHashOf(cs.RoundState.LockedBlock) \
+//@            && (cs.RoundState.LockedBlockParts != nil ==> arg_header.Total == cs.RoundState.LockedBlockParts.total && arg_header.Hash == cs.RoundState.LockedBlockParts.hash)
+//@   atcall signAddVote assert [unlocked-prevotes-only-valid-proposal] cs.RoundState.LockedBlock == nil && arg_hash != nil ==> cs.RoundState.ProposalBlock != nil \
+//@            && blockValidFor(cs.state, cs.RoundState.ProposalBlock) && arg_hash == blockHashOf(cs.RoundState.ProposalBlock)
+//@   onwrite RoundState.LockedBlock assert [prevote-never-touches-lock] false
+//@   onwrite RoundState.LockedRound assert [prevote-never-touches-lock] false
+//@   onwrite RoundState.LockedBlockParts assert [prevote-never-touches-lock] false
+//@   ensures  [exactly-one-prevote] calls(signAddVote) == 1
+
+//@ ghost gPolkaRound Int
+
+//@ func (*ConsensusState).enterPrecommit
+//@   props C04 C01
+//@   let guard = cs.RoundState.Height == height && round >= cs.RoundState.Round && !(cs.RoundState.Round == round && 6 <= cs.RoundState.Step)
+//@   requires cs != nil && cs.state != nil && wfHVS(cs.RoundState.Votes) && (cs.privValidator != nil ==> wfValSet(cs.RoundState.Validators))
+//@   aborts when [pol-round-behind] round > cs.RoundState.Votes.round
+//@   aborts when [polka-for-invalid-block] gValidated == nil && gPolkaOk
+//@   aborts when [polka-with-negative-part-count] gPolkaOk && gPolkaID.PartsHeader.Total < 0
+//@   atcall Prevotes set gPolkaRound = arg_round
+//@   atcall TwoThirdsMajority set gPolkaOk = result1
+//@   atcall TwoThirdsMajority set gPolkaID = result0
+//@   atcall ValidateBlock set gValidated = ite(result == nil, arg_block, nil)
+//@   atcall signAddVote assert [precommit-type] arg_type_ == 2
+//@   atcall signAddVote assert [precommit-block-needs-polka-of-this-round] arg_hash != nil ==> gPolkaOk && gPolkaRound == round && arg_hash == gPolkaID.Hash && arg_header == gPolkaID.PartsHeader
+//@   atcall signAddVote assert [precommit-block-is-locked] arg_hash != nil ==> cs.RoundState.LockedBlock != nil && bytesEq(blockHashOf(cs.RoundState.LockedBlock), arg_hash) && cs.RoundState.LockedRound == round
+//@   onwrite RoundState.LockedBlock assert [lock-change-needs-polka-of-this-round] gPolkaOk && gPolkaRound == round
+//@   onwrite RoundState.LockedBlock assert [new-lock-is-validated-polka-block] newval != nil ==> newval == cs.RoundState.ProposalBlock && gValidated == newval && len(gPolkaID.Hash) != 0 && bytesEq(blockHashOf(newval), gPolkaID.Hash)
+//@   onwrite RoundState.LockedBlock assert [unlock-needs-polka-for-something-else] newval == nil ==> cs.RoundState.LockedBlock == nil || len(gPolkaID.Hash) == 0 || !bytesEq(blockHashOf(cs.RoundState.LockedBlock), gPolkaID.Hash)
+//@   onwrite RoundState.LockedRound assert [locked-round-follows-polka] gPolkaOk && gPolkaRound == round && (newval == round || newval == 0)
+//@   ensures  [one-precommit-per-entry] old(guard) ==> calls(signAddVote) == 1
+//@   ensures  [no-entry-no-effect] !old(guard) ==> calls(signAddVote) == 0 && cs.RoundState.LockedBlock == old(cs.RoundState.LockedBlock) && cs.RoundState.LockedRound == old(cs.RoundState.LockedRound) && cs.RoundState.Step == old(cs.RoundState.Step)
+//@   ensures  [step-advances] old(guard) ==> cs.RoundState.Round == round && cs.RoundState.Step == 6
